@@ -1,11 +1,13 @@
 HOOK_COMMITS = ["358b29f", "6cd9f5c", "5546540"]
-FIX_COMMITS = ["923416a", "a6cf66b", "1830814", "c137568"]
+FIX_COMMITS = ["923416a", "a6cf66b", "1830814", "c137568", "96c0ea9"]
 
 NOTES = ("All checks are ./check <id> --tier quick|thorough (runner/vrunner.py). Every engine is rebuilt "
          "incrementally from /repo's working tree with the hook guard on. Oracle = independent spec model "
          "spec/b3spec (anchored against a second Python model and the published vectors on every run).")
 
 ENGINES_DOC = [
+    {"name": "kernels", "path": "engines/kernels", "serves_properties": ["C05", "C07"],
+     "kind_free_text": "Rust + build.rs linking every native kernel flavour from /repo/c under distinct names (Unix asm, C intrinsics as cint_*, Windows-GNU asm as win_* after .rdata->.rodata), register-sentinel trampolines (GNU as), guard-page allocator, child-process isolation, clang ASan/UBSan driver"},
     {"name": "clib", "path": "engines/clib", "serves_properties": ["C06"],
      "kind_free_text": "Rust harness + build.rs compiling /repo/c (assembly, C-intrinsics or portable-only flavour, -DBLAKE3_TESTING); explicit-state BFS over the real blake3_hasher through FFI"},
     {"name": "stock", "path": "engines/stock", "serves_properties": ["C04"],
@@ -110,6 +112,19 @@ CHECKS["C06"] = {
     "technique": "explicit-state BFS over the real C blake3_hasher (three C build flavours x every dispatch mask), merged on the live bytes of the public struct; spec oracle in every state",
     "text": "The C library is built from /repo/c in three flavours (Unix assembly, C intrinsics, portable-only) and explored under every dispatch mask the CPU supports, set through upstream's own BLAKE3_TESTING seam g_cpu_features. From each of the four initialisers (five mode instances) a breadth-first search applies update over the fine and coarse alphabets and reset from every state, merging on the live bytes of the struct; in every state finalize/finalize_seek at 16 (seek, out_len) probes - out_len 0, partial first/last blocks, block counter 2^32 across all 16 xof_many lanes, the end of the 2^64-1 stream - are compared with the spec stream with canaries around the output, queries must leave every byte of the hasher unchanged, zero-length updates (NULL, dangling, valid pointer) must be no-ops, reset must equal a fresh hasher and the two derive-key initialisers must agree.",
     "note": "Trusted: b3spec; the Rust mirror of the struct layout (checked against sizeof/offsetof at start). Equality with the Rust crate is by both equalling the spec on the same case space. Bounds as C02.",
+}
+
+CHECKS["C05"] = {
+    "engine": "kernels (values)", "category": "exploration", "design_ref": "DESIGN.md 3/C05",
+    "technique": "bounded-exhaustive enumeration of kernel argument shapes on every kernel flavour (Rust intrinsics, C intrinsics, Unix assembly, Windows-GNU assembly via the Win64 ABI) vs the portable kernel, itself vs the spec model",
+    "text": "Seventeen kernels (portable Rust and C; SSE2, SSE4.1, AVX2, AVX-512 as Rust intrinsics, C intrinsics, Unix assembly and Windows-GNU assembly called through the Win64 convention) are each run in their own process on: compress_in_place/compress_xof for every block_len 0..=64 x every flag byte x counters on both sides of every 32-bit carry x a content alphabet, plus walking-one and single-bit flips over every block, CV and counter bit; hash_many for every input count 0..=35 x blocks {1,16} x counters x increment yes/no x flag triples, every flag byte and 343 flag triples at interesting counts, every input/output alignment offset; xof_many for 1..=40 blocks at counters that put the 2^32 carry in every lane. The oracle is the portable Rust kernel, which is compared with the independent spec compression function on the same tuples; outputs are surrounded by canaries.",
+    "note": "Block/CV contents restricted to a structured alphabet (arbitrary 512-bit values would need a solver-family argument). MSVC .asm and NEON/wasm cannot be run here.",
+}
+CHECKS["C07"] = {
+    "engine": "kernels (guard pages, register sentinels, sanitizers)", "category": "exploration", "design_ref": "DESIGN.md 3/C07",
+    "technique": "bounded-exhaustive enumeration of kernel argument shapes under three monitors: PROT_NONE guard pages flush against every operand (child processes), register-sentinel trampolines for both calling conventions, and an ASan+UBSan build of the C code",
+    "text": "Every kernel flavour is run with each operand - every input separately, the input-pointer array, key/CV, block, and an output of exactly the entitled size - placed flush against an inaccessible page, once on its right and once on its left, for block_len 0..=64, input counts 0..=2*degree+3 (35 in the thorough tier) x blocks {1,16} x counters x increment and xof_many 1..=40 blocks; a fault kills only the child and is reported with the case that was running, and the sweep resumes behind it. Every assembly and C kernel call goes through a hand-written trampoline that loads sentinels into all callee-saved registers of the target convention (System V: rbx, rbp, r12-r15; Win64 additionally rsi, rdi, xmm6-xmm15) and checks them, the stack pointer and the direction flag afterwards. The C library and the C intrinsics are additionally built with clang -fsanitize=address,undefined and driven through 16 update histories x 4 modes x 17 (seek, out_len) probes x 5 dispatch masks and direct kernel calls on exact-size heap blocks.",
+    "note": "UB in the Rust intrinsics that neither faults nor changes results is not observable; Win64 assembly is run as ELF (no real Windows loader). API-level C histories under guard pages are covered by the sanitizer build rather than mprotect.",
 }
 
 NOT_APPLICABLE = {("C%02d" % i): PENDING for i in range(1, 19)}
